@@ -2,6 +2,8 @@ package main
 
 import (
 	"go/types"
+	"math"
+	"strconv"
 	"fmt"
 	"go/token"
 	"net/textproto"
@@ -302,6 +304,168 @@ func stringsIntrinsic(name string, fn *ssa.Function) intrinsicFn {
 				return x.byteSlice(append([]*Term{}, s[lo:hi]...))
 			}
 			return normStr(&StrV{B: append([]*Term{}, s[lo:hi]...)})
+		}
+	case "strconv.FormatInt", "strconv.Itoa":
+		return func(x *Exec, _ *ssa.Function, a []Value) Value {
+			t := a[0].(*Term)
+			if len(a) > 1 {
+				if b := a[1].(*Term); !b.IsConc() || b.C.(int64) != 10 {
+					x.abort("UNSUPPORTED", "FormatInt base != 10")
+				}
+			}
+			if t.IsConc() {
+				return mkStr(strconv.FormatInt(t.C.(int64), 10))
+			}
+			return x.newToken("dec", t)
+		}
+	case "strconv.Atoi", "strconv.ParseInt":
+		return func(x *Exec, f *ssa.Function, a []Value) Value {
+			if ti := x.tokenOf(a[0]); ti != nil && ti.kind == "dec" {
+				return tup(ti.arg, nilErr)
+			}
+			if t, ok := a[0].(*Term); ok && t.IsConc() {
+				n, err := strconv.ParseInt(t.C.(string), 10, 64)
+				if err != nil {
+					return tup(mkInt(0), x.newErr("strconv: "+err.Error()))
+				}
+				return tup(mkInt(n), nilErr)
+			}
+			// symbolic digits: evaluate the decimal value, forking on digit-ness
+			bs := x.toStrV(a[0]).B
+			neg := false
+			if len(bs) > 0 {
+				if x.branch(tEq(bs[0], mkInt('-'))) {
+					neg = true
+					bs = bs[1:]
+				} else if x.branch(tEq(bs[0], mkInt('+'))) {
+					bs = bs[1:]
+				}
+			}
+			if len(bs) == 0 || len(bs) > 18 {
+				return tup(mkInt(0), x.newErr("strconv: invalid syntax"))
+			}
+			val := mkInt(0)
+			for _, b := range bs {
+				if b.IsConc() && b.C.(int64) >= 1000 {
+					return tup(mkInt(0), x.newErr("strconv: invalid syntax"))
+				}
+				if !x.branch(tAnd(tLe(mkInt('0'), b), tLe(b, mkInt('9')))) {
+					return tup(mkInt(0), x.newErr("strconv: invalid syntax"))
+				}
+				val = tAdd(app(SInt, "*", val, mkInt(10)), tSub(b, mkInt('0')))
+			}
+			if neg {
+				val = tSub(mkInt(0), val)
+			}
+			return tup(val, nilErr)
+		}
+	case "strconv.ParseFloat":
+		return func(x *Exec, f *ssa.Function, a []Value) Value {
+			if ti := x.tokenOf(a[0]); ti != nil && ti.kind == "dec" {
+				return tup(x.intToFloat(ti.arg.(*Term), types.Typ[types.Int64]), nilErr)
+			}
+			if t, ok := a[0].(*Term); ok && t.IsConc() {
+				v, err := strconv.ParseFloat(t.C.(string), 64)
+				if err != nil {
+					return tup(mkFloat(0), x.newErr("strconv: "+err.Error()))
+				}
+				return tup(mkFloat(v), nilErr)
+			}
+			// any other text: either a syntax error or some float (uninterpreted)
+			if x.branch(x.fresh("parsefloat_err", SBool)) {
+				return tup(mkFloat(0), x.newErr("strconv.ParseFloat: invalid syntax"))
+			}
+			return tup(x.fresh("parsefloat", SFloat), nilErr)
+		}
+	case "(*encoding/base64.Encoding).EncodeToString":
+		return func(x *Exec, _ *ssa.Function, a []Value) Value {
+			src := &StrV{B: x.bytesOf(a[1])}
+			if len(src.B) == 0 {
+				return mkStr("")
+			}
+			return x.newToken("b64", src)
+		}
+	case "(*encoding/base64.Encoding).DecodeString":
+		return func(x *Exec, _ *ssa.Function, a []Value) Value {
+			if t, ok := a[1].(*Term); ok && t.IsConc() && t.C.(string) == "" {
+				return tup(x.byteSlice([]*Term{}), nilErr)
+			}
+			if ti := x.tokenOf(a[1]); ti != nil && ti.kind == "b64" {
+				return tup(x.byteSlice(append([]*Term{}, ti.arg.(*StrV).B...)), nilErr)
+			}
+			// not produced by the encoder: rejected, or decodes to arbitrary bytes (uninterpreted, but a function
+			// of its input: the same text decodes the same way)
+			key := "b64:"
+			for _, b := range x.bytesOf(a[1]) {
+				key += b.E + ","
+			}
+			if r, ok := x.ufMemo[key]; ok {
+				if r == nil {
+					return tup((*SliceV)(nil), x.newErr("illegal base64 data"))
+				}
+				return tup(x.byteSlice(append([]*Term{}, r...)), nilErr)
+			}
+			if x.ufMemo == nil {
+				x.ufMemo = map[string][]*Term{}
+			}
+			if x.branch(x.fresh("b64_err", SBool)) {
+				x.ufMemo[key] = nil
+				return tup((*SliceV)(nil), x.newErr("illegal base64 data"))
+			}
+			n := x.choose('c', 3, nil)
+			var bs []*Term
+			for i := 0; i < n; i++ {
+				b := x.fresh("b64dec", SInt)
+				x.sol.Assert(tLe(mkInt(0), b))
+				x.sol.Assert(tLe(b, mkInt(255)))
+				bs = append(bs, b)
+			}
+			if bs == nil {
+				bs = []*Term{}
+			}
+			x.ufMemo[key] = bs
+			return tup(x.byteSlice(append([]*Term{}, bs...)), nilErr)
+		}
+	case "math.Trunc":
+		return func(x *Exec, _ *ssa.Function, a []Value) Value {
+			t := a[0].(*Term)
+			if t.S == SFInt {
+				return t
+			}
+			if t.IsConc() {
+				return mkFloat(math.Trunc(t.C.(float64)))
+			}
+			return &Term{S: SFloat, E: "(fp.roundToIntegral RTZ " + t.E + ")"}
+		}
+	case "math.IsNaN":
+		return func(x *Exec, _ *ssa.Function, a []Value) Value {
+			t := a[0].(*Term)
+			if t.S == SFInt {
+				return tFalse
+			}
+			if t.IsConc() {
+				return mkBool(math.IsNaN(t.C.(float64)))
+			}
+			return app(SBool, "fp.isNaN", t)
+		}
+	case "math.IsInf":
+		return func(x *Exec, _ *ssa.Function, a []Value) Value {
+			t := a[0].(*Term)
+			sign := a[1].(*Term).C.(int64)
+			if t.S == SFInt {
+				return tFalse
+			}
+			if t.IsConc() {
+				return mkBool(math.IsInf(t.C.(float64), int(sign)))
+			}
+			inf := app(SBool, "fp.isInfinite", t)
+			switch {
+			case sign > 0:
+				return tAnd(inf, app(SBool, "fp.isPositive", t))
+			case sign < 0:
+				return tAnd(inf, app(SBool, "fp.isNegative", t))
+			}
+			return inf
 		}
 	// ---- net/http.Header as a plain map with canonical concrete keys
 	case "(net/http.Header).Get":
